@@ -1716,6 +1716,7 @@ func (p *Parser) primary() (Expr, *ParseError) {
 			if err != nil {
 				return nil, err
 			}
+			p.match(TokenComma) // WGSL argument lists allow a trailing comma
 			if err := p.expectErr(TokenRightParen); err != nil {
 				return nil, err
 			}
